@@ -444,10 +444,10 @@ def work(spec):
 
     if "interp_bc" in ops:  # ghost-cell mode
         allp = pts + [pr[0] for pr in spec.get("probes", [])]
-        r = []
-        for bfill in (None, fill):
+        r = {}
+        for with_fill in spec.get("bc_fills", [False, True]):
             try:
-                if bfill is None:
+                if not with_fill:
                     vals = []
                     for p in allp:
                         try:
@@ -456,11 +456,11 @@ def work(spec):
                             vals.append(_err(e))
                 else:
                     v = np.asarray(f.interpolate(np.array(allp, dtype=float).reshape(len(allp), g.num_axes),
-                                                 bc=spec["bc"], fill=bfill), dtype=float)
+                                                 bc=spec["bc"], fill=fill), dtype=float)
                     vals = [_vals(v[..., i]) for i in range(len(allp))]
             except Exception as e:  # noqa: BLE001
                 vals = _err(e)
-            r.append(vals)
+            r[with_fill] = vals
         out["interp_bc"] = r
         full = np.asarray(f._data_full, dtype=float)
         out["data_full"] = [_vals(c) for c in full.reshape((ncomp,) + full.shape[fs["rank"]:])]
@@ -477,6 +477,8 @@ def work(spec):
         out["grid2_points"] = [[float(c) for c in row] for row in np.asarray(tp).reshape(-1, g.num_axes)]
         r = {}
         for name, kw in (("nofill", {}), ("fill", {"fill": fill}), ("bc", {"bc": spec.get("bc"), "fill": fill})):
+            if name not in spec.get("to_grid_variants", ("nofill", "fill", "bc")):
+                continue
             if name == "bc" and spec.get("bc") is None:
                 continue
             if name != "nofill" and fill is None:
@@ -508,8 +510,17 @@ def work(spec):
                 elif which == "comp":
                     ins(f2.data, np.array(p, dtype=float), am)
                 else:
+                    f2._data_full[...] = 0.0  # ghost cells defined; valid data restored below
+                    f2.data = np.array(fs["comps"], dtype=float).reshape(f2.data.shape)
+                    full = np.asarray(f2._data_full, dtype=float)
+                    full_before = [_vals(c) for c in full.reshape((ncomp,) + full.shape[fs["rank"]:])]
                     ins(f2._data_full, np.array(p, dtype=float), am)
-                r.append({"after": _vals(f2.data), "int_before": ib, "int_after": _vals(f2.integral), "before": before})
+                item = {"after": _vals(f2.data), "int_before": ib, "int_after": _vals(f2.integral), "before": before}
+                if which == "comp_ghost":
+                    full = np.asarray(f2._data_full, dtype=float)
+                    item["full_before"] = full_before
+                    item["full_after"] = [_vals(c) for c in full.reshape((ncomp,) + full.shape[fs["rank"]:])]
+                r.append(item)
             except Exception as e:  # noqa: BLE001
                 r.append(_err(e))
         return r
@@ -592,7 +603,7 @@ def same_vals(model, real, scale, exact):
 # ==========================================================================================
 # case generation
 # ==========================================================================================
-def gen_case(rng, hist, kind=None, jit=False, quota=None):
+def gen_case(rng, kind=None, jit=False):
     gs = gen_grid(rng, kind)
     axes = grid_axes(gs)
     fs = gen_field(rng, gs, axes)
@@ -625,14 +636,23 @@ def gen_case(rng, hist, kind=None, jit=False, quota=None):
     spec = {"grid": gs, "field": fs, "points": pts, "fill": fill, "bc": bc, "probes": probes,
             "cell_points": cell_points, "inserts": inserts}
     if jit:
-        spec["ops"] = ["interp", "interp_fill", "interp_bc", "insert_comp"]
+        # every compiled function costs seconds: one plain interpolator, one ghost-cell interpolator, one inserter
+        spec["jit"] = True
+        spec["ops"] = [rng.choice(["interp", "interp_fill"]), "interp_bc", "insert",
+                       rng.choice(["insert_comp", "insert_comp", "insert_comp_ghost"])]
+        spec["bc_fills"] = [rng.random() < 0.5]
     else:
-        spec["ops"] = ["axis", "interp", "interp_fill", "single_cc", "interp_bc", "insert", "insert_comp"]
+        spec["ops"] = ["axis", "interp", "interp_fill", "single_cc", "interp_bc", "insert", "insert_comp",
+                       "insert_comp_ghost"]
     if fs["rank"] == 0 and rng.random() < 0.6:
         g2 = gen_grid2(rng, gs)
         if g2 is not None:
             spec["grid2"] = g2
             spec["ops"] = spec["ops"] + ["to_grid"]
+            if jit:  # reuse the interpolators compiled above
+                spec["to_grid_variants"] = ["fill" if "interp_fill" in spec["ops"] else "nofill"]
+                if spec["bc_fills"] == [True]:
+                    spec["to_grid_variants"].append("bc")
     return spec, axes, meta, sides
 
 
@@ -855,8 +875,10 @@ def evaluate(ctx, ev, spec, axes, meta, sides, res):
         allp = pts + [pr[0] for pr in probes]
         full, fshape = res["data_full"], res["full_shape"]
         fscale = scale_of(full, spec["fill"] or 0.0)
-        for which, with_fill in ((0, False), (1, True)):
-            real_all = res["interp_bc"][which]
+        for with_fill in (False, True):
+            if with_fill not in res["interp_bc"]:
+                continue
+            real_all = res["interp_bc"][with_fill]
             leg = "interp_bc_fill" if with_fill else "interp_bc"
             if isinstance(real_all, str):
                 ctx.disagree(leg, small_case(spec, leg, bc=spec["bc"]), "values", real_all, "interpolate(bc=..) failed")
@@ -1048,33 +1070,278 @@ def evaluate(ctx, ev, spec, axes, meta, sides, res):
 
 
 # ==========================================================================================
+# ghost-mode compiled inserter (NumbaBackend.make_inserter(with_ghost_cells=True))
+# ==========================================================================================
+def evaluate_ghost_inserter(ctx, ev, spec, axes, res):
+    """`make_inserter(grid, with_ghost_cells=True)` on the padded array.  Correspondence with insertCompN in
+    ghost mode for every point; monitor at points whose support cells are all valid cells (between centres on
+    every non-periodic axis): the integral of the valid data rises by the amount and the valid data equal those
+    of the interpreted insert"""
+    if "insert_comp_ghost" not in res:
+        return
+    gs, fs = spec["grid"], spec["field"]
+    mode = "J" if res["jit"] else "S"
+    uniform = gs["cls"] in ("UnitGrid", "CartesianGrid")
+    vol = res["vol"]
+    for k, ((p, amount), real) in enumerate(zip(spec["inserts"], res["insert_comp_ghost"])):
+        xs = [(c - a[2]) / a[3] - 0.5 for c, a in zip(p, axes)]
+        where = classify(axes, p)
+        interior = all(a[1] or (1e-9 <= x <= a[0] - 1 - 1e-9) for a, x in zip(axes, xs))
+        ctx.count(count_key(spec, "insert_comp_ghost", point=p, amount=amount), nontrivial=where == "inside",
+                  leg=f"insert_comp_ghost/{mode}")
+        case = small_case(spec, "insert_comp_ghost", point=p, amount=amount)
+        # ---- correspondence (component by component, padded arrays)
+        for c in range(len(amount)):
+            def cb(st, val, real=real, c=c, case=case, amount=amount):
+                ctx.impl_traces += 1
+                if st != "ok":
+                    ctx.disagree("insert_comp_ghost", case, "model error " + str(val), None)
+                    return
+                if val is None or isinstance(real, str):
+                    if not (val is None and real == "ERR:DomainError"):
+                        ctx.disagree("insert_comp_ghost", case, val if val is None else "data",
+                                     real if isinstance(real, str) else "data", "ghost inserter: error behaviour differs")
+                    return
+                fb, fa = real["full_before"][c], real["full_after"][c]
+                sc = max(1.0, max(abs(v) for v in fb)) + abs(amount[c]) / min(vol)
+                if any(abs(float(fr(m)) - r) > TOL * sc for m, r in zip(val["data"], fa)):
+                    ctx.disagree("insert_comp_ghost", case, [float(fr(x)) for x in val["data"]], fa,
+                                 f"ghost inserter: new padded data differ (component {c})")
+            if isinstance(real, str):
+                full_before = None
+            else:
+                full_before = real["full_before"][c]
+            if full_before is None:
+                # the real call raised before we could record the padded array: rebuild it (zeros in the ghost layer)
+                shape = [a[0] for a in axes]
+                arr = np.zeros([n + 2 for n in shape])
+                arr[tuple(slice(1, -1) for _ in shape)] = np.array(fs["comps"][c]).reshape(shape)
+                full_before = [float(v) for v in arr.reshape(-1)]
+            ev.ask("c16.insert", req_insert(axes, vol, full_before, p, amount[c], "comp", ghost=True), cb)
+        # ---- monitor
+        if not (interior and where == "inside"):
+            continue
+        ctx.monitor_evals += 1
+        key = {"op": "insert_comp_ghost", "grid_class": gs["cls"]}
+        if not uniform:
+            key["symptom"] = "cell-volume-index-not-shifted"
+        ref = res.get("insert", [None] * (k + 1))[k]
+        bad = None
+        if isinstance(real, str):
+            bad = (real, "amount inserted")
+        else:
+            for c in range(len(amount)):
+                ib, ia = real["int_before"][c], real["int_after"][c]
+                if not abs((ia - ib) - amount[c]) <= TOL * (abs(ib) + abs(amount[c]) + 1.0):
+                    bad = ({"before": ib, "after": ia, "change": ia - ib}, amount[c])
+                    break
+            if bad is None and isinstance(ref, dict):
+                sc = max(1.0, max(abs(v) for v in ref["before"])) + max(abs(x) for x in amount) / min(vol)
+                if any(abs(x - y) > TOL * sc for x, y in zip(real["after"], ref["after"])):
+                    bad = (real["after"], ref["after"])
+        if bad:
+            ctx.monitor_fail("insert_comp_ghost", case, bad[0], bad[1],
+                             "compiled inserter with ghost cells does not add the amount at an interior point",
+                             key=key)
+
+
+# ==========================================================================================
 # entry points
 # ==========================================================================================
-def run_cases(ctx, specs_meta, env, procs):
-    from harness.common.isolated import run_many
-    from harness.common.lean import LeanBatch
+class NullEval:
+    """monitors only (no model requests)"""
 
-    results = run_many("harness.c16", "work", [s[0] for s in specs_meta], env=env, procs=procs)
-    ev = Eval(ctx, LeanBatch(ctx.workdir))
-    for (spec, axes, meta, sides), res in zip(specs_meta, results):
+    def ask(self, fn, args, cb):
+        pass
+
+    def finish(self):
+        pass
+
+
+S_ENV = {"NUMBA_DISABLE_JIT": "1"}
+J_ENV = {"NUMBA_DISABLE_JIT": "0"}
+
+
+def run_workers(specs, jit, workdir, procs=None):
+    from harness.common.isolated import run_many
+
+    import os
+
+    wd = os.path.join(workdir, "j" if jit else "s")
+    return run_many("harness.c16", "work", specs, env=J_ENV if jit else S_ENV,
+                    procs=procs or (16 if jit else 8), workdir=wd)
+
+
+def eval_all(ctx, ev, cases, results):
+    for (spec, axes, meta, sides), res in zip(cases, results):
         evaluate(ctx, ev, spec, axes, meta, sides, res)
-    ev.finish()
+        if not isinstance(res, str):
+            evaluate_ghost_inserter(ctx, ev, spec, axes, res)
 
 
 def run(ctx):
+    import threading
+
+    from harness.common.lean import LeanBatch
+
     rng = ctx.rng
-    n_s = ctx.budget(260, 6000)
-    n_j = ctx.budget(16, 192)
-    s_cases, j_cases = [], []
-    for i in range(n_s):
-        s_cases.append(gen_case(rng, ctx.hist, kind=GRID_KINDS[i % len(GRID_KINDS)]))
-    for i in range(n_j):
-        c = gen_case(rng, ctx.hist, kind=GRID_KINDS[i % len(GRID_KINDS)], jit=True)
-        c[0]["jit"] = True
-        j_cases.append(c)
-    run_cases(ctx, s_cases, {"NUMBA_DISABLE_JIT": "1"}, 8)
-    run_cases(ctx, j_cases, {"NUMBA_DISABLE_JIT": "0"}, 16)
+    n_s = ctx.budget(600, 6000)
+    n_j = ctx.budget(16, 160)
+    s_cases = [gen_case(rng, kind=GRID_KINDS[i % len(GRID_KINDS)]) for i in range(n_s)]
+    j_cases = [gen_case(rng, kind=GRID_KINDS[i % len(GRID_KINDS)], jit=True) for i in range(n_j)]
+    # compiled mode runs in the background (compilation dominates), source mode + model meanwhile
+    jbox = {}
+
+    def jrun():
+        try:
+            jbox["res"] = run_workers([c[0] for c in j_cases], True, ctx.workdir)
+        except BaseException as e:  # noqa: BLE001
+            jbox["exc"] = e
+
+    th = threading.Thread(target=jrun)
+    th.start()
+    try:
+        chunk = 400
+        for i in range(0, n_s, chunk):
+            part = s_cases[i:i + chunk]
+            results = run_workers([c[0] for c in part], False, ctx.workdir)
+            ev = Eval(ctx, LeanBatch(ctx.workdir))
+            eval_all(ctx, ev, part, results)
+            ev.finish()
+    finally:
+        th.join()
+    if "exc" in jbox:
+        raise jbox["exc"]
+    ev = Eval(ctx, LeanBatch(ctx.workdir))
+    eval_all(ctx, ev, j_cases, jbox["res"])
+    ev.finish()
+    # smallest grids first: the replay written for a group is its first failure
+    ctx.monitor_failures.sort(key=lambda m: (len(m["case"]["field"]["comps"]) * len(m["case"]["field"]["comps"][0])))
+    ctx.disagreements.sort(key=lambda d: (len(d["case"]["field"]["comps"]) * len(d["case"]["field"]["comps"][0]))
+                           if isinstance(d.get("case"), dict) and "field" in d["case"] else 0)
+
+
+class _Collect:
+    """minimal stand-in for Ctx used by search/replay: collects monitor failures only"""
+
+    def __init__(self):
+        self.monitor_failures, self.disagreements = [], []
+        self.monitor_evals = self.impl_traces = 0
+
+    def count(self, *a, **k):
+        pass
+
+    def hist(self, *a, **k):
+        pass
+
+    def disagree(self, leg, case, model, impl, note=""):
+        self.disagreements.append({"leg": leg, "case": case, "model": model, "impl": impl, "note": note})
+
+    def monitor_fail(self, leg, case, observed, expected, what, key=None):
+        self.monitor_failures.append({"leg": leg, "case": case, "observed": observed, "expected": expected,
+                                      "what": what, "key": key or {}})
+
+
+def search(ctx, broken):
+    """failing-input search after a broken tie: the monitors (which contain an independent reference
+    interpolant and the conservation statement) on the disagreeing cases and on a larger fresh sample"""
+    col = _Collect()
+    rng = ctx.sub_rng("search")
+    # (a) the disagreeing cases themselves
+    for d in broken[:20]:
+        c = d.get("case") if isinstance(d, dict) else None
+        if isinstance(c, dict) and "grid" in c:
+            replay_case(col, c, ctx.workdir)
+            if col.monitor_failures:
+                return col.monitor_failures
+    # (b) fresh sample, source semantics; (c) compiled, when the compiled leg was involved
+    cases = [gen_case(rng, kind=GRID_KINDS[i % len(GRID_KINDS)]) for i in range(1500)]
+    eval_all(col, NullEval(), cases, run_workers([c[0] for c in cases], False, ctx.workdir))
+    if not col.monitor_failures and any(isinstance(d, dict) and isinstance(d.get("case"), dict) and d["case"].get("jit")
+                                        for d in broken):
+        cases = [gen_case(rng, kind=GRID_KINDS[i % len(GRID_KINDS)], jit=True) for i in range(32)]
+        eval_all(col, NullEval(), cases, run_workers([c[0] for c in cases], True, ctx.workdir))
+    col.monitor_failures.sort(key=lambda m: len(m["case"]["field"]["comps"]) * len(m["case"]["field"]["comps"][0]))
+    return col.monitor_failures
+
+
+def axis_kind(n, x):
+    if abs(x - round(x)) < 1e-12 and 0 <= round(x) <= n - 1:
+        return "centre"
+    if abs(x - math.floor(x) - 0.5) < 1e-12 and 0 <= x <= n - 1:
+        return "face"
+    if 0 <= x <= n - 1:
+        return "bulk"
+    return "other"
+
+
+def bc_sides(gs, axes, bc):
+    """what the bc argument imposes on each side: None (periodic) or [(kind, const), (kind, const)]"""
+    if bc is None:
+        return [None] * len(axes)
+    if bc == "auto_periodic_neumann":
+        return [None if a[1] else [("derivative", 0.0)] * 2 for a in axes]
+    if bc == "auto_periodic_dirichlet":
+        return [None if a[1] else [("value", 0.0)] * 2 for a in axes]
+    names = list(make_grid(gs).axes)
+    sides = []
+    for name, a in zip(names, axes):
+        if a[1]:
+            sides.append(None)
+        else:
+            sides.append([tuple(bc[name + sfx].items())[0] for sfx in "-+"])
+    return sides
+
+
+def replay_case(col, c, workdir):
+    """re-run one recorded case (grid, field, operation, point) on the real code and evaluate the monitors"""
+    gs, fs = c["grid"], c["field"]
+    axes = grid_axes(gs)
+    op = c["op"]
+    p = c.get("point")
+    pts = [p] if p is not None else []
+    meta = []
+    for pt in pts:
+        xs = [(x - a[2]) / a[3] - 0.5 for x, a in zip(pt, axes)]
+        meta.append({"cls": c.get("cls", "replay"), "xs": xs, "where": classify(axes, pt),
+                     "kinds": [axis_kind(a[0], x) for a, x in zip(axes, xs)]})
+    bc = c.get("bc")
+    sides = bc_sides(gs, axes, bc)
+    probes = []
+    if c.get("probe"):
+        ax, upper, t, idx = c["probe"]
+        probes, pts, meta = [(p, ax, upper, t, idx)], [], []
+    fill = c.get("fill")
+    spec = {"grid": gs, "field": fs, "points": pts, "fill": 0.0 if fill is None else fill, "bc": bc, "probes": probes,
+            "cell_points": [m["xs"] for m in meta], "inserts": [(p, c["amount"])] if "amount" in c else [],
+            "jit": bool(c.get("jit"))}
+    if op in ("interp", "interp_fill", "single_cc", "insert", "insert_comp"):
+        spec["ops"] = [op]
+    elif op in ("interp_bc", "interp_bc_fill"):
+        spec["ops"] = ["interp_bc"]
+        spec["bc_fills"] = [op == "interp_bc_fill"]
+    elif op.startswith("to_grid_"):
+        spec["ops"] = ["to_grid"]
+        spec["grid2"] = c["grid2"]
+        spec["to_grid_variants"] = [op[len("to_grid_"):]]
+    elif op == "insert_vs_comp":
+        spec["ops"] = ["insert", "insert_comp"]
+    elif op == "insert_comp_ghost":
+        spec["ops"] = ["insert", "insert_comp_ghost"]
+    else:
+        spec["ops"] = []
+    res = run_workers([spec], spec["jit"], workdir, procs=1)[0]
+    eval_all(col, NullEval(), [(spec, axes, meta, sides)], [res])
+    return res
 
 
 def replay(ctx, rep):
-    return True
+    col = _Collect()
+    res = replay_case(col, rep["case"], ctx.workdir)
+    shown = {k: v for k, v in res.items() if k not in ("vol", "data_full", "axis")} if isinstance(res, dict) else res
+    print("real code:", str(shown)[:1500])
+    for m in col.monitor_failures:
+        print("monitor:", m["what"], "| observed", str(m["observed"])[:300], "| expected", str(m["expected"])[:300])
+    if not col.monitor_failures:
+        print("monitor: holds")
+    return not col.monitor_failures
